@@ -84,3 +84,14 @@ Definition assoc_get {A} (k : string) (m : list (string * option A)) : option A 
   | Some (_, v) => v
   | None => None
   end.
+
+(** [raise HandledError from e] *)
+Definition raise_handled_from (e : outcome) (s : st) : R :=
+  match e with
+  | ORaise r => (OHandled r, s)
+  | _ => (OUnsup, s)            (* a HandledError never reaches a second wrapping *)
+  end.
+
+(** [e.__cause__] of a HandledError *)
+Definition exn_cause (e : outcome) : outcome :=
+  match e with OHandled r => ORaise r | _ => e end.
